@@ -5,48 +5,46 @@ mod verif_c13 {
     use serde::Serializer as _;
 //@@COMMON@@
 
+    // value-level views (the internal slot an integer is stored in is not part of the property)
     fn is_u8(a: &Any, v: u8) -> bool {
-        matches!(a.0, Inner::U8(x) if x == v)
+        equiv(emitted(a), Ev::U8(v))
     }
     fn is_i64(a: &Any, v: i64) -> bool {
-        matches!(a.0, Inner::I64(x) if x == v)
+        equiv(emitted(a), Ev::I64(v))
     }
     fn is_f64(a: &Any, v: f64) -> bool {
-        matches!(a.0, Inner::F64(x) if x.0.to_bits() == v.to_bits())
+        emitted(a) == Ev::F64(v.to_bits())
     }
 
     // ---- every scalar method of AnySerializer stores exactly the payload in the matching slot -----------
     #[kani::proof]
     fn scalar_slots() {
-        let b: bool = kani::any();
-        assert!(matches!(AnySerializer.serialize_bool(b).unwrap().0, Inner::Bool(x) if x == b));
-        let v: i8 = kani::any();
-        assert!(matches!(AnySerializer.serialize_i8(v).unwrap().0, Inner::I8(x) if x == v));
-        let v: i16 = kani::any();
-        assert!(matches!(AnySerializer.serialize_i16(v).unwrap().0, Inner::I16(x) if x == v));
-        let v: i32 = kani::any();
-        assert!(matches!(AnySerializer.serialize_i32(v).unwrap().0, Inner::I32(x) if x == v));
-        let v: i64 = kani::any();
-        assert!(matches!(AnySerializer.serialize_i64(v).unwrap().0, Inner::I64(x) if x == v));
-        let v: i128 = kani::any();
-        assert!(matches!(AnySerializer.serialize_i128(v).unwrap().0, Inner::I128(x) if x == v));
-        let v: u8 = kani::any();
-        assert!(matches!(AnySerializer.serialize_u8(v).unwrap().0, Inner::U8(x) if x == v));
-        let v: u16 = kani::any();
-        assert!(matches!(AnySerializer.serialize_u16(v).unwrap().0, Inner::U16(x) if x == v));
-        let v: u32 = kani::any();
-        assert!(matches!(AnySerializer.serialize_u32(v).unwrap().0, Inner::U32(x) if x == v));
-        let v: u64 = kani::any();
-        assert!(matches!(AnySerializer.serialize_u64(v).unwrap().0, Inner::U64(x) if x == v));
-        let v: u128 = kani::any();
-        assert!(matches!(AnySerializer.serialize_u128(v).unwrap().0, Inner::U128(x) if x == v));
+        macro_rules! same_value {
+            ($method:ident, $t:ty, $ev:expr) => {{
+                let v: $t = kani::any();
+                let a = AnySerializer.$method(v).unwrap();
+                assert!(equiv(emitted(&a), $ev(v)));
+            }};
+        }
+        same_value!(serialize_bool, bool, Ev::Bool);
+        same_value!(serialize_i8, i8, Ev::I8);
+        same_value!(serialize_i16, i16, Ev::I16);
+        same_value!(serialize_i32, i32, Ev::I32);
+        same_value!(serialize_i64, i64, Ev::I64);
+        same_value!(serialize_i128, i128, Ev::I128);
+        same_value!(serialize_u8, u8, Ev::U8);
+        same_value!(serialize_u16, u16, Ev::U16);
+        same_value!(serialize_u32, u32, Ev::U32);
+        same_value!(serialize_u64, u64, Ev::U64);
+        same_value!(serialize_u128, u128, Ev::U128);
         let v: f32 = kani::any();
-        assert!(matches!(AnySerializer.serialize_f32(v).unwrap().0, Inner::F32(x) if x.0.to_bits() == v.to_bits()));
+        assert!(emitted(&AnySerializer.serialize_f32(v).unwrap()) == Ev::F32(v.to_bits()));
         let v: f64 = kani::any();
         assert!(is_f64(&AnySerializer.serialize_f64(v).unwrap(), v));
-        assert!(matches!(AnySerializer.serialize_unit().unwrap().0, Inner::Null));
-        assert!(matches!(AnySerializer.serialize_none().unwrap().0, Inner::Null));
-        assert!(matches!(AnySerializer.serialize_unit_struct("X").unwrap().0, Inner::Null));
+        // unit, none and unit structs are JSON null
+        assert!(emitted(&AnySerializer.serialize_unit().unwrap()) == Ev::Unit);
+        assert!(emitted(&AnySerializer.serialize_none().unwrap()) == Ev::Unit);
+        assert!(emitted(&AnySerializer.serialize_unit_struct("X").unwrap()) == Ev::Unit);
         kani::cover!(true);
     }
 
@@ -117,7 +115,7 @@ mod verif_c13 {
         let v: f64 = kani::any();
         let mut s = AnySerializer.serialize_map(Some(1)).unwrap();
         SerializeMap::serialize_key(&mut s, &k).unwrap();
-        assert!(matches!(&s.key, Some(a) if matches!(a.0, Inner::I32(x) if x == k)));
+        assert!(matches!(&s.key, Some(a) if equiv(emitted(a), Ev::I32(k))));
         assert!(s.map.is_empty());
         std::mem::forget(s);
         kani::cover!(true);
@@ -279,7 +277,7 @@ mod verif_c13 {
         let out = SerializeMap::end(s).unwrap();
         match single_entry(&out) {
             // non-string keys keep their type inside the Any
-            Some((kk, vv)) => assert!(matches!(kk.0, Inner::I32(x) if x == k) && is_f64(vv, v)),
+            Some((kk, vv)) => assert!(equiv(emitted(kk), Ev::I32(k)) && is_f64(vv, v)),
             None => assert!(false),
         }
         std::mem::forget(out);
